@@ -116,4 +116,95 @@ example : readN false 2 (Slice.ofArray #[0, 0x12, 0x34]) 1 = (.ok 0x1234, 3) := 
 example : readN true 4 (Slice.ofArray #[1, 2, 3]) 1 = (.err (.SliceReadError 1 5), 1) := by decide
 example : (readTy false .i32 (Slice.ofArray #[0xff, 0xff, 0xff, 0xfe]) 0).1 = .ok (-2) := by decide
 
+/-! ## Round trip with the encoder: the bytes of a value, in either order, decode to that value -/
+
+/-- little-endian bytes of `v`, `w` of them (least significant first) -/
+def encodeLE : Nat → Nat → List Nat
+  | 0, _ => []
+  | w + 1, v => v % 256 :: encodeLE w (v / 256)
+
+/-- big-endian bytes of `v`, `w` of them (most significant first) -/
+def encodeBE (w v : Nat) : List Nat := (encodeLE w v).reverse
+
+/-- the window holds the listed bytes from `off` on -/
+def HoldsAt (d : Slice) (off : Nat) : List Nat → Prop
+  | [] => True
+  | b :: bs => d.byte off = b ∧ HoldsAt d (off + 1) bs
+
+theorem holdsAt_append (d : Slice) (off : Nat) (xs ys : List Nat) :
+    HoldsAt d off (xs ++ ys) ↔ HoldsAt d off xs ∧ HoldsAt d (off + xs.length) ys := by
+  induction xs generalizing off with
+  | nil => simp [HoldsAt]
+  | cons x xs ih =>
+    simp only [List.cons_append, HoldsAt, List.length_cons, ih (off + 1)]
+    have : off + 1 + xs.length = off + (xs.length + 1) := by omega
+    rw [this]
+    constructor
+    · rintro ⟨h1, h2, h3⟩; exact ⟨⟨h1, h2⟩, h3⟩
+    · rintro ⟨⟨h1, h2⟩, h3⟩; exact ⟨h1, h2, h3⟩
+
+theorem encodeLE_length (w v : Nat) : (encodeLE w v).length = w := by
+  induction w generalizing v with
+  | zero => rfl
+  | succ w ih => simp [encodeLE, ih]
+
+/-- **decode ∘ encode = id, little-endian**, for every width and every value that fits -/
+theorem decodeLE_encodeLE (d : Slice) (off w v : Nat) (hv : v < 256 ^ w) (h : HoldsAt d off (encodeLE w v)) :
+    decodeLE d off w = v := by
+  induction w generalizing off v with
+  | zero => simp [decodeLE]; simp at hv; omega
+  | succ w ih =>
+    simp only [encodeLE, HoldsAt] at h
+    simp only [decodeLE]
+    have hv' : v / 256 < 256 ^ w := by
+      rw [Nat.pow_succ] at hv
+      exact Nat.div_lt_of_lt_mul (by rw [Nat.mul_comm]; exact hv)
+    rw [h.1, ih (off + 1) (v / 256) hv' h.2]
+    omega
+
+theorem encodeLE_snoc (w v : Nat) (hv : v < 256 ^ (w + 1)) :
+    encodeLE (w + 1) v = encodeLE w (v % 256 ^ w) ++ [v / 256 ^ w] := by
+  induction w generalizing v with
+  | zero => simp [encodeLE]; omega
+  | succ w ih =>
+    have hv' : v / 256 < 256 ^ (w + 1) := by
+      rw [Nat.pow_succ] at hv
+      exact Nat.div_lt_of_lt_mul (by rw [Nat.mul_comm]; exact hv)
+    rw [encodeLE, ih (v / 256) hv']
+    simp only [encodeLE, List.cons_append]
+    have e1 : v % 256 ^ (w + 1) % 256 = v % 256 := by
+      rw [Nat.pow_succ, Nat.mod_mul_left_mod]
+    have e2 : v % 256 ^ (w + 1) / 256 = v / 256 % 256 ^ w := by
+      rw [Nat.pow_succ, Nat.mul_comm, Nat.mod_mul_right_div_self]
+    have e3 : v / 256 / 256 ^ w = v / 256 ^ (w + 1) := by
+      rw [Nat.div_div_eq_div_mul, Nat.pow_succ, Nat.mul_comm]
+    rw [e1, e2, e3]
+
+/-- **decode ∘ encode = id, big-endian** -/
+theorem decodeBE_encodeBE (d : Slice) (off w v : Nat) (hv : v < 256 ^ w) (h : HoldsAt d off (encodeBE w v)) :
+    decodeBE d off w = v := by
+  induction w generalizing off v with
+  | zero => simp [decodeBE]; simp at hv; omega
+  | succ w ih =>
+    unfold encodeBE at h
+    rw [encodeLE_snoc w v hv, List.reverse_append] at h
+    simp only [List.reverse_cons, List.reverse_nil, List.nil_append, List.cons_append, HoldsAt] at h
+    simp only [decodeBE]
+    have hlt : v % 256 ^ w < 256 ^ w := Nat.mod_lt _ (Nat.pow_pos (by decide))
+    rw [h.1, ih (off + 1) (v % 256 ^ w) hlt h.2]
+    have := Nat.div_add_mod v (256 ^ w)
+    rw [Nat.mul_comm] at this
+    omega
+
+/-- both orders through the model's `decode` -/
+theorem decode_encode (le : Bool) (d : Slice) (off w v : Nat) (hv : v < 256 ^ w)
+    (h : HoldsAt d off (if le then encodeLE w v else encodeBE w v)) : decode le d off w = v := by
+  unfold decode
+  cases le
+  · simp only [Bool.false_eq_true, if_false] at h ⊢; exact decodeBE_encodeBE d off w v hv h
+  · simp only [if_true] at h ⊢; exact decodeLE_encodeLE d off w v hv h
+
+example : encodeLE 4 0x12345678 = [0x78, 0x56, 0x34, 0x12] := by decide
+example : encodeBE 4 0x12345678 = [0x12, 0x34, 0x56, 0x78] := by decide
+
 end Elf.C04
